@@ -688,7 +688,7 @@ def run_cases(run, cases, impl_exe, model_exe, label):
         if bad:
             run.violation(bad[0], bad[1], rep)
         elif ir != mr:
-            gconv = c.get('dirs') and any(d['conv'] in 'gG' for d in c['dirs'])
+            gconv = re.search(r'[gG]', c['fmt']) is not None      # (liberal: only used together with the boundary test)
             if gconv and near_log10_boundary(c):
                 run.count('g_log10_boundary_skipped')
             else:
